@@ -160,6 +160,13 @@ class NestedParent(WrappingQuery):
             # the parent is deleted, because the query that gave us the parents
             # wouldn't return deleted documents.
             self._nextdoc = self.comb.before(child.id() + 1)
+            while self._nextdoc is None:
+                # This match comes before the first parent document, so it
+                # does not belong to any parent: skip it
+                child.next()
+                if not child.is_active():
+                    return
+                self._nextdoc = self.comb.before(child.id() + 1)
             # The next parent after the child matcher's current document
             nextparent = self.comb.after(child.id()) or self.maxdoc
 
